@@ -86,6 +86,7 @@ fn sub_mode(args: &[String]) -> bool {
         if eval {
             let idx: u64 = arg_after(args, "--index").and_then(|s| s.parse().ok()).unwrap_or(0);
             let mut o = Out::new();
+            o.lean = op.lean;
             eval_one(op, idx, &mut o);
             println!("E {} {} {}", op.name, idx, words_json(&o));
             continue;
@@ -201,6 +202,7 @@ fn eval_remote(op: &Op, other: &Other, tier: &str, idx: u64) -> String {
 
 fn case_json(op: &Op, idx: u64) -> Value {
     let mut o = Out::new();
+    o.lean = op.lean;
     eval_one(op, idx, &mut o);
     json!({"op": op.name, "index": idx, "inputs": (op.describe)(idx), "result_in_this_build": words_json(&o)})
 }
@@ -342,6 +344,7 @@ fn main() {
     r.assume("profiles are compared on this machine/target only (x86_64 linux); 32-bit / wasm targets are not covered");
     r.assume("quaternion ops whose result has a non-finite component are hashed as one class 'non-finite' in the differential (debug builds panic in Quat::new's documented debug_assert where release returns the value); panics on all-finite inputs are still reported by the in-process totality oracle");
     r.assume("sin/cos entry points with NaN/Inf angles are outside the stated domain: exercised separately and reported under profile_dependent_panics, excluded from the differential");
+    r.assume("thorough only: in the 2^32 sweeps the cross-profile digest covers the primary entry points (F32Scalar::sin_cos, Mat4::rotation_x, DFix64::sin_cos); the thin wrappers sin()/cos()/rotation_y/rotation_z are compared bit-for-bit with the primary in this build for every input and are hashed across profiles over the quick alphabet (quick tier hashes everything)");
     r.assume("libm (f64, software) is the accuracy reference for |x| <= 64 with tolerance 1e-4; IEEE-754 f32 sqrt of std is the reference for det_sqrt");
 
     // quick: one `--digests` run per other build for all ops (4 process spawns in total);
